@@ -38,6 +38,9 @@ type Config struct {
 	// NoPrior: the WAL holds no frame when the race starts, so that after a log restart the second transaction's
 	// frames land on the slots of the first one's (a stale page-to-frame mapping then points at another page).
 	NoPrior bool `json:"noprior,omitempty"`
+	// Hot (rollback-journal mode): an application died in the middle of a transaction before the race starts: pages
+	// already overwritten in the file, a valid journal next to it. The export has to roll it back first.
+	Hot bool `json:"hot,omitempty"`
 }
 
 type pos [2]uint64
@@ -93,6 +96,33 @@ func harness(cfgJSON json.RawMessage) sched.Harness {
 			rec(img)
 			setup.Close()
 		}
+		if cfg.Hot && !cfg.WAL {
+			dead := pager.NewConn(n.M, "db", 8, ps)
+			func() {
+				defer func() {
+					if p := recover(); p != nil {
+						if _, ok := p.(pager.Abort); !ok {
+							panic(p)
+						}
+					}
+				}()
+				wrote := false
+				dead.Before = func(step int, desc string) {
+					if wrote {
+						panic(pager.Abort{Step: step})
+					}
+					if strings.HasPrefix(desc, "db write page") {
+						wrote = true
+					}
+				}
+				dead.RunRTx(pager.RTx{Mods: []uint32{2, 3}, SpillAfter: []int{1}, Final: "DELETE", Outcome: "commit"}, img)
+			}()
+			dead.Before = nil
+			dead.Close()
+			if !n.M.Exists("db-journal") {
+				return "harness-error: no hot journal", nil
+			}
+		}
 		db := n.DB("db")
 
 		// ---- threads ----
@@ -146,6 +176,18 @@ func harness(cfgJSON json.RawMessage) sched.Harness {
 			}
 			defer c.Close()
 			cur := img
+			if cfg.Hot {
+				// a real writer would first roll the dead application's journal back itself; this one lets the export do
+				// it and starts when the journal is gone
+				for tries := 0; n.M.Exists("db-journal"); tries++ {
+					if tries > 200 {
+						wErrs = append(wErrs, "journal never went away")
+						return
+					}
+					th.Point("writer waits for the hot journal to go")
+					time.Sleep(300 * time.Microsecond)
+				}
+			}
 			for i := 0; i < 2; i++ {
 				if i > 0 {
 					// between two transactions the connection holds nothing and has read nothing yet: a checkpointer that
@@ -308,6 +350,7 @@ func TestCheck(t *testing.T) {
 		{WAL: false, Op: "export"},
 		{WAL: true, Op: "export-http", Ckpt: true, Shrink: true},
 		{WAL: true, Op: "export", Ckpt: true, NoPrior: true},
+		{WAL: false, Op: "export", Hot: true},
 	}
 	jobBudget := 60 * time.Second
 	if run.Thorough() {
